@@ -52,6 +52,38 @@ theorem C20_conceal_hides (first last : Nat) (ms : List Message) (h : DistOK ms)
       have : hideIf (fun m => decide (lastDist ms - dist m < last)) m = stripPos m := by simp [hideIf, hr, h2]
       rw [this]; exact posFree_stripPos u1 u2
 
+/-- **Exactly which position fields of a record go** (no uniqueness assumed): `RemoveFieldByNum` removes the FIRST field
+with the number, so of a record the concealer strips (`stripPos`) exactly the first position_lat and the first
+position_long field are gone — every other field, further position fields included, stays, in order — and the record is
+left without any position field IF AND ONLY IF it carried each of the two at most once. `UniqueNum` in
+`C20_conceal_hides` is therefore necessary, not only sufficient: on a record with a duplicated position field (a
+message definition listing the field twice) the concealer leaves the second one (model and code agree; reported as
+`n/a` by the `--prop` oracle, counted in the evidence). -/
+theorem C20_conceal_hides_exact (m : Message) :
+    fsn fnRecordPositionLat (stripPos m) = (fsn fnRecordPositionLat m).tail ∧
+    fsn fnRecordPositionLong (stripPos m) = (fsn fnRecordPositionLong m).tail ∧
+    (stripPos m).fields.filter (other [fnRecordPositionLat, fnRecordPositionLong]) =
+      m.fields.filter (other [fnRecordPositionLat, fnRecordPositionLong]) ∧
+    (posFree (stripPos m) = true ↔ UniqueNum fnRecordPositionLat m ∧ UniqueNum fnRecordPositionLong m) := by
+  have hne : fnRecordPositionLong ≠ fnRecordPositionLat := by decide
+  have e1 : fsn fnRecordPositionLat (stripPos m) = (fsn fnRecordPositionLat m).tail := by
+    unfold stripPos; rw [fsn_rm_ne hne, fsn_rm_same]
+  have e2 : fsn fnRecordPositionLong (stripPos m) = (fsn fnRecordPositionLong m).tail := by
+    unfold stripPos; rw [fsn_rm_same, fsn_rm_ne (Ne.symm hne)]
+  have hpf : ∀ x : Message, posFree x = true ↔ fsn fnRecordPositionLat x = [] ∧ fsn fnRecordPositionLong x = [] := by
+    intro x
+    simp only [posFree, fsn, List.all_eq_true, Bool.and_eq_true, Bool.not_eq_true', List.filter_eq_nil_iff,
+      Bool.not_eq_true]
+    exact ⟨fun h => ⟨fun f hf => (h f hf).1, fun f hf => (h f hf).2⟩, fun h f hf => ⟨h.1 f hf, h.2 f hf⟩⟩
+  have htl : ∀ l : List Field, l.tail = [] ↔ l.length ≤ 1 := by
+    intro l; cases l with
+    | nil => simp
+    | cons a t => cases t <;> simp
+  refine ⟨e1, e2, ?_, ?_⟩
+  · show (removeField fnRecordPositionLong (removeField fnRecordPositionLat m.fields)).filter _ = _
+    rw [removeField_other (by simp), removeField_other (by simp)]
+  · rw [hpf, e1, e2, htl, htl]; rfl
+
 /-- **…and nothing else of a record.** Under the same hypothesis a record outside both stretches comes out
 unchanged, and a record inside loses exactly its (first) position_lat / position_long field. -/
 theorem C20_conceal_records_exact (first last : Nat) (ms : List Message) (h : DistOK ms) :
@@ -79,34 +111,95 @@ theorem C20_conceal_only_positions (first last : Nat) (ms : List Message) :
   exact ⟨t, t.eq_of_other⟩
 
 /-- **No lap or session position points into a concealed stretch** — the full statement: for every activity with
-valid non-decreasing distances, recorded forward in time (`recTimesIncB`: the records' timestamps increase), whose
-laps (sessions) carry valid times and follow each other (`lapsSeqB`) and whose records, laps and sessions carry each
-position field at most once (`recUniqueB`, `lapUniqueB`: `RemoveFieldByNum` removes the first field with a number
-only), after concealing no lap (session) keeps a start/end position that belongs to an instant outside the revealed
-window, unless it was replaced by the coordinates of the first / last revealed record and that record is itself
-revealed (`noLeakB`, FitModel/ActivitySpec.lean).
-FALSE on the pinned tree: see the witness below (KF-C20-1 = design finding F17; a second defect, KF-C20-2, was
-repaired in /repo by commit bd79ab7). Proved outside the class of KF-C20-1: `C20_conceal_lap_session_partial`.
-(The two well-formedness conditions were made explicit by the proof: with a duplicated position field in a lap, or
-with record timestamps that do not increase, "before the first revealed record" by file order and by time are
-different things and the statement — which reads "points into" by time — does not apply; the generated activities
-and the property's quantifier, synthetic activities, always satisfy them.) -/
+valid non-decreasing distances (the property's own hypothesis) that is well-formed — its laps (sessions) carry valid
+times and follow each other in time (`lapsSeqB`: a lap is a stretch of the activity; laps that overlap in time or are
+out of order are not an activity) and its records, laps and sessions carry each position field at most once
+(`recUniqueB`, `lapUniqueB`: `RemoveFieldByNum` removes the first field with a number only, see
+`C20_conceal_hides_exact`) — after concealing no lap (session) keeps a start/end position that belongs to an instant
+outside the revealed window, unless it was replaced by the coordinates of the first / last revealed record and that
+record is itself revealed (`noLeakB`, FitModel/ActivitySpec.lean). NO hypothesis on the timestamps of the records.
+FALSE on the pinned tree in the class of KF-C20-1 (= design finding F17: seconds + raw milliseconds); two other defects
+were repaired in /repo: KF-C20-2 (commit bd79ab7) and KF-C20-4 (the two stretches overlap and two records at the
+boundary carry the same timestamp: a lap kept the coordinates of a concealed record — found when the hypothesis
+"timestamps strictly increase", which an earlier version of this statement carried, was dropped and the generator left
+the one-tick-per-record zone). Proved outside the class of KF-C20-1: `C20_conceal_lap_session_partial`. -/
 def C20_conceal_lap_session_full : Prop :=
-  ∀ (ph : PH) (first last : Nat) (ms : List Message), (ph = lapPH ∨ ph = sesPH) → DistOK ms → recTimesIncB ms = true →
+  ∀ (ph : PH) (first last : Nat) (ms : List Message), (ph = lapPH ∨ ph = sesPH) → DistOK ms →
     lapsSeqB ph ms = true → recUniqueB ms = true → lapUniqueB ph ms = true →
     noLeakB ph first last ms (conceal first last ms) = true
 
-/-- **No lap or session position points into a concealed stretch, outside the class of KF-C20-1** (`_partial`: the
-only added hypothesis, `unitsDisagree ph first ms = false`, is the negation of the class predicate of the open
-finding — the predicate `--kf` evaluates: on no lap/session does the code's test `start_time + total_timer_time < T`,
-seconds plus raw milliseconds, differ from the test in seconds). For any conceal distances (overlapping stretches,
-nothing left revealed, nothing concealed), any number of laps / sessions and records, any other messages in between:
-the forward and backward scans, the two lap/session passes of each stage and their composition. -/
+/-- **No lap or session position points into a concealed stretch, outside the class of KF-C20-1** (`_partial`: the only
+added hypothesis, `unitsDisagree ph first ms = false`, is the negation of the class predicate of the open finding — the
+predicate `--kf` evaluates: on no lap/session does the code's test `start_time + total_timer_time < T`, seconds plus raw
+milliseconds, differ from the test in seconds). For any conceal distances (overlapping stretches, nothing left revealed,
+nothing concealed), any number of laps / sessions and records, any other messages in between, and ANY record timestamps
+(equal, decreasing): the forward and backward scans, the overlap test, the two lap/session passes of each stage and
+their composition. -/
 theorem C20_conceal_lap_session_partial (ph : PH) (first last : Nat) (ms : List Message) (hph : ph = lapPH ∨ ph = sesPH)
-    (hd : DistOK ms) (ht : recTimesIncB ms = true) (hseq : lapsSeqB ph ms = true) (hur : recUniqueB ms = true)
+    (hd : DistOK ms) (hseq : lapsSeqB ph ms = true) (hur : recUniqueB ms = true)
     (hul : lapUniqueB ph ms = true) (hkf : unitsDisagree ph first ms = false) :
     noLeakB ph first last ms (conceal first last ms) = true :=
-  conceal_noLeak hph first last ms hd ht hseq hur hul hkf
+  conceal_noLeak hph first last ms hd hseq hur hul hkf
+
+/-- **Exactly what concealing does to each lap / session** (so that `Touch`, which would also allow stripping more, is
+not the last word), outside the class of KF-C20-1. With T₁ = timestamp of the first record at or beyond `first` (`r1`;
+no such record: every lap ends before it) and T₂ = timestamp of the last record at least `last` before the end (`r2`),
+`Stages` (FitProps/ActivityLeakLemmas.lean) says of every lap (session) `m`, its state `m1` after the start stage and
+`m'` after the end stage — start_time and total_timer_time never change —:
+* start stage, `first ≠ 0`: a lap ending before T₁ loses all four positions (`strip4`); a lap not ending before T₁ is
+  either THE one that gets the record's coordinates as start position (`rewriteStart`: the field is removed when the
+  record has no position, and a lap without the field gets none) — its end position untouched — or it is untouched and
+  starts at or after T₁ (the laps after the rewritten one). `first = 0`: untouched;
+* end stage, `last ≠ 0`: no record left revealed, or the stretches overlap (`ov`): all four positions go; otherwise a lap
+  starting after T₂ loses all four; a lap starting at or before T₂ is either THE one that gets the record's coordinates
+  as end position (`rewriteEnd … false`: start position untouched) or it is untouched and ends at or before T₂.
+  `last = 0`: untouched.
+Which lap is "the one" is said by the walk theorems `C20_conceal_lap_session_start_partial` / `_end`: the first lap
+not ending before T₁ — even when it STARTS after T₁ (T₁ in a gap between two laps: that lap's start position, which
+did not point into the stretch, is replaced by the record's; over-concealing in the letter, harmless, and allowed by
+the reading of the property's last clause, DESIGN §3) — and the last lap starting at or before T₂. -/
+theorem C20_conceal_lap_session_stages (ph : PH) (first last : Nat) (ms : List Message) (hph : ph = lapPH ∨ ph = sesPH)
+    (hd : DistOK ms) (hseq : lapsSeqB ph ms = true) (hur : recUniqueB ms = true) (hkf : unitsDisagree ph first ms = false) :
+    ∃ (r1 r2 : RecInfo) (ov : Bool),
+      ∀ (i : Nat) (m m' : Message), ms[i]? = some m → (conceal first last ms)[i]? = some m' → (m.num == ph.mesgNum) = true →
+        ∃ m1, Stages ph first last ms m m1 m' r1 r2 ov := by
+  obtain ⟨r1, r2, ov, h⟩ := conceal_stages hph first last ms hd hseq hur hkf
+  exact ⟨r1, r2, ov, fun i m m' hm hm' hn => h.get i m m' hm hm' hn⟩
+
+/-- strictly increasing record timestamps (an activity recorded forward in time, at most one record per second) exclude
+the class of the former finding KF-C20-4 (`overlapTie`) — why the first version of the statement, which assumed them,
+could not see it -/
+theorem C20_overlapTie_false_of_increasing (first last : Nat) (ms : List Message) (hd : DistOK ms)
+    (ht : recTimesIncB ms = true) : overlapTie first last ms = false :=
+  overlapTie_false_of_inc first last ms hd ht
+
+/-- KF-C20-4 (fixed in /repo), the witness: four records 1 m apart, the two in the middle written in the same second
+(t = 110); lap 1 = [100 s, 110 s] after the first two records, lap 2 = [110 s, 120 s] at the end; total_timer_time in
+milliseconds. Conceal the first 1.5 m and the last 1.5 m: the stretches overlap, EVERY record loses its position —
+before the fix lap 1 came out with a start position, the coordinates of record 3 (which the end stage conceals), and
+with its end position (`updateStartPosition` rewrites the first lap reaching T, `updateEndPosition` handled the LAST
+lap starting at or before T — with a tie these are different laps). Every hypothesis of the full statement holds
+(and `unitsDisagree` is false: this was not KF-C20-1). -/
+def tieWitness : List Message :=
+  let lap (a b sl el : Nat) : Message :=
+    { num := mnLap, devFields := [], fields := [
+        { base := some { num := fnLapStartTime, baseType := btUint32 }, value := .uint32 a },
+        { base := some { num := fnLapStartPositionLat, baseType := btSint32 }, value := .int32 sl },
+        { base := some { num := fnLapStartPositionLong, baseType := btSint32 }, value := .int32 (sl + 1000) },
+        { base := some { num := fnLapEndPositionLat, baseType := btSint32 }, value := .int32 el },
+        { base := some { num := fnLapEndPositionLong, baseType := btSint32 }, value := .int32 (el + 1000) },
+        { base := some { num := fnLapTotalTimerTime, baseType := btUint32 }, value := .uint32 ((b - a) * 1000) }] }
+  [mkRec 100 1000 2000 0, mkRec 110 1001 2001 100, lap 100 110 1000 1001, mkRec 110 1002 2002 200, mkRec 120 1003 2003 300,
+   lap 110 120 1002 1003]
+
+theorem C20_conceal_lap_session_tie_witness_fixed :
+    distOKB tieWitness = true ∧ lapsSeqB lapPH tieWitness = true ∧ recUniqueB tieWitness = true ∧
+    lapUniqueB lapPH tieWitness = true ∧ unitsDisagree lapPH 150 tieWitness = false ∧
+    overlapTie 150 150 tieWitness = true ∧ recTimesIncB tieWitness = false ∧
+    ((conceal 150 150 tieWitness).filter isRecord).all posFree = true ∧
+    noLeakB lapPH 150 150 tieWitness (conceal 150 150 tieWitness) = true ∧
+    ((conceal 150 150 tieWitness).filter (·.num == mnLap)).all (fun m => (posNums mnLap).all fun n => (fsn n m).isEmpty) = true := by
+  decide +kernel
 
 /-- the design witness of F17: 10 records 100 m and 10 s apart, lap 1 = the first 3 records, lap 2 = the other 7,
 total_timer_time in milliseconds as real files carry it -/
@@ -135,13 +228,20 @@ theorem C20_conceal_lap_session_F17_witness :
 /-- non-vacuity of `C20_conceal_lap_session_partial`: the same activity with the first 200 m and the last 300 m
 concealed meets every hypothesis (lap 1 reaches the first revealed record, so the two tests agree), and positions
 are rewritten: lap 1 starts at record 3's position, lap 2 ends at record 7's -/
-example : distOKB f17Witness = true ∧ recTimesIncB f17Witness = true ∧ lapsSeqB lapPH f17Witness = true ∧
+example : distOKB f17Witness = true ∧ lapsSeqB lapPH f17Witness = true ∧
     recUniqueB f17Witness = true ∧ lapUniqueB lapPH f17Witness = true ∧ unitsDisagree lapPH 20000 f17Witness = false ∧
     conceal 20000 30000 f17Witness ≠ f17Witness := by decide +kernel
 
-/-- why `recTimesIncB` is a hypothesis: two records with DEcreasing timestamps (distances increasing), first 500 m and
-last 600 m concealed — the first revealed record of the start stage (record 2) is concealed by the end stage, and lap
-1, rewritten by the start stage with its coordinates, is not reached by the end stage, which goes by time -/
+/-- non-vacuity beyond strictly increasing timestamps: the tie witness (two records share a timestamp) meets every
+hypothesis of `C20_conceal_lap_session_partial`, with non-overlapping and with overlapping stretches -/
+example : distOKB tieWitness = true ∧ lapsSeqB lapPH tieWitness = true ∧ recUniqueB tieWitness = true ∧
+    lapUniqueB lapPH tieWitness = true ∧ unitsDisagree lapPH 50 tieWitness = false ∧ unitsDisagree lapPH 150 tieWitness = false ∧
+    recTimesIncB tieWitness = false ∧ conceal 50 50 tieWitness ≠ tieWitness := by decide +kernel
+
+/-- the class of the former KF-C20-4 with DEcreasing timestamps (two records, distances increasing, first 500 m and last
+600 m concealed: the first revealed record of the start stage — record 2 — is concealed by the end stage). Before /repo
+a90ed67 lap 1, rewritten by the start stage with record 2's coordinates, was not reached by the end stage, which goes by
+time; now the overlap makes the end stage strip every lap: the statement holds -/
 example :
     let r (ts lat d : Nat) := mkRec ts lat (lat + 1000) d
     let lap (a b : Nat) : Message :=
@@ -151,7 +251,7 @@ example :
           { base := some { num := fnLapTotalTimerTime, baseType := btUint32 }, value := .uint32 ((b - a) * 1000) }] }
     let ms := [r 100 1 0, r 50 2 100000, lap 40 60, lap 70 80]
     distOKB ms = true ∧ recTimesIncB ms = false ∧ lapsSeqB lapPH ms = true ∧ unitsDisagree lapPH 50000 ms = false ∧
-      noLeakB lapPH 50000 60000 ms (conceal 50000 60000 ms) = false := by decide +kernel
+      overlapTie 50000 60000 ms = true ∧ noLeakB lapPH 50000 60000 ms (conceal 50000 60000 ms) = true := by decide +kernel
 
 /-- KF-C20-2 (fixed by /repo commit bd79ab7): concealing the last 2000 m of the same 900 m activity conceals every
 record; lap 1 used to keep all its positions — with the fixed `updateEndPosition` the statement holds on the witness -/
@@ -218,6 +318,42 @@ theorem C20_remove_sublist (o : RemoveOpts) (ms : List Message) (h : o.devData =
 
 /-! ## reducer -/
 
+/-- **Reducing by distance, every message list** (no hypothesis on the records): the output relates to the input by
+`ReducedI` (FitModel/ActivitySpec.lean) — every non-record message stays; the first record stays, whatever it carries; a
+later record that carries NO valid distance is left out (`if d == basetype.Uint32Invalid { continue }`: the reducer's
+choice for a record that has no place on the distance axis — the one case in which a record goes that is not "closer
+than the interval", outside the property's parenthesis, which speaks of records that lie somewhere; stated, not hidden);
+a later record with a valid distance is left out exactly when its distance (uint32 difference, as Go computes it) to the
+reference — the last kept record with a valid distance (0 if the first record has none) — is below the threshold. -/
+theorem C20_reduce_exact_distance_all (th : Nat) (ms : List Message) :
+    ReducedI dist wrapSub th 0 false ms (reduceByDistance th ms) := by
+  unfold reduceByDistance
+  rw [compact_interval]
+  exact spec_interval_reducedI dist th ms {}
+
+/-- **Reducing by time, every message list**: the same with timestamps. -/
+theorem C20_reduce_exact_time_all (th : Nat) (ms : List Message) :
+    ReducedI tstamp wrapSub th 0 false ms (reduceByTime th ms) := by
+  unfold reduceByTime
+  rw [compact_interval]
+  exact spec_interval_reducedI tstamp th ms {}
+
+/-- what `ReducedI` gives, with no hypothesis: the output is a sublist of the input (order and content kept), every
+non-record is kept, the first record is kept; and when every record carries a valid key it is `Reduced` — a record is
+dropped only if it lies closer than the interval to the previously kept record -/
+theorem C20_reduce_conserves_all {key diff th ms out} (h : ReducedI key diff th 0 false ms out) :
+    out.Sublist ms ∧ out.filter (fun m => !isRecord m) = ms.filter (fun m => !isRecord m) ∧
+    out.find? isRecord = ms.find? isRecord ∧ (KeysValid key ms → Reduced key diff th none ms out) :=
+  ⟨h.sublist, h.nonRecords, h.firstRecord, fun hv => by simpa using h.toReduced hv⟩
+
+/-- non-vacuity of the invalid-key clause: three records, the middle one without distance, 1.5 m interval — the middle
+record goes although it is not "closer than the interval" to anything, the third is measured against the first -/
+example :
+    let noDist : Message := { num := mnRecord, devFields := [], fields := [
+      { base := some { num := fnRecordTimestamp, baseType := btUint32 }, value := .uint32 20 }] }
+    (reduceByDistance 150 [mkRec 10 1 2 0, noDist, mkRec 30 5 6 200]).map tstamp = [10, 30] ∧
+    keysValidB dist [mkRec 10 1 2 0, noDist, mkRec 30 5 6 200] = false := by decide
+
 /-- **Reducing by distance.** If every record carries a valid distance, the output relates to the input by
 `Reduced`: every non-record message stays, the first record stays, and a later record is left out exactly when its
 distance (uint32 difference, as Go computes it) to the previously kept record is below the threshold. -/
@@ -268,6 +404,50 @@ theorem C20_reduce_rdp_exact (simplified : List Nat) (ms : List Message) (hs : s
 
 /-! ## combiner -/
 
+/-- **When `Combine` answers at all** (the theorems below speak about successful runs). Empty inputs (files without
+messages) are dropped first. With no input left — no input at all, or only empty ones — `result = fits[0]` PANICS (index
+out of range; outside the property's quantifier "lists of 1..5 activities", modelled as `.panic` and exercised by the
+family: `combine`, `combine / /`). If a non-empty input has no session message, `Combine` returns the error "no session
+found" and no result. In every other case it succeeds (`.ok`; `.unmodelled` stands for an accumulable field of a float
+type, which the profile does not have). -/
+theorem C20_combine_domain (fits : List (List Message)) :
+    ((∀ f ∈ fits, f = []) → (match combine fits with | .panic => True | _ => False)) ∧
+    ((∃ f ∈ fits, f ≠ []) → (∃ f ∈ fits, f ≠ [] ∧ sessionsOf f = []) → (match combine fits with | .noSession => True | _ => False)) ∧
+    ((∃ f ∈ fits, f ≠ []) → (∀ f ∈ fits, f ≠ [] → sessionsOf f ≠ []) →
+      (match combine fits with | .ok _ _ => True | .unmodelled => True | _ => False)) := by
+  have hmem : ∀ f, f ∈ sortByCreation (fits.filter (!·.isEmpty)) ↔ f ∈ fits ∧ f ≠ [] := by
+    intro f
+    rw [(sortByCreation_perm _).mem_iff, List.mem_filter]
+    cases f <;> simp
+  refine ⟨fun hall => ?_, fun ⟨g, hg, hgne⟩ ⟨f, hf, hfne, hfs⟩ => ?_, fun ⟨g, hg, hgne⟩ hall => ?_⟩
+  · have : sortByCreation (fits.filter (!·.isEmpty)) = [] := by
+      cases h : sortByCreation (fits.filter (!·.isEmpty)) with
+      | nil => rfl
+      | cons a l =>
+        have := (hmem a).mp (by rw [h]; simp)
+        exact absurd (hall a this.1) this.2
+    simp [combine, this]
+  · cases h : sortByCreation (fits.filter (!·.isEmpty)) with
+    | nil => have := (hmem g).mpr ⟨hg, hgne⟩; rw [h] at this; cases this
+    | cons a l =>
+      have hany : (a :: l).any (fun f => (sessionsOf f).isEmpty) = true := by
+        rw [List.any_eq_true]; exact ⟨f, by rw [← h]; exact (hmem f).mpr ⟨hf, hfne⟩, by simp [hfs]⟩
+      simp only [combine, h, hany, if_true]
+  · cases h : sortByCreation (fits.filter (!·.isEmpty)) with
+    | nil => have := (hmem g).mpr ⟨hg, hgne⟩; rw [h] at this; cases this
+    | cons a l =>
+      have hany : (a :: l).any (fun f => (sessionsOf f).isEmpty) = false := by
+        rw [List.any_eq_false]
+        intro f hf
+        have := (hmem f).mp (by rw [h]; exact hf)
+        simpa using hall f this.1 this.2
+      simp only [combine, h, hany, Bool.false_eq_true, if_false]
+      cases combineBody (collectMesgs [] (filterBody a)) (List.map filterBody l) <;> trivial
+
+example : (match combine [] with | .panic => true | _ => false) = true ∧
+    (match combine [[], []] with | .panic => true | _ => false) = true ∧
+    (match combine [[mkRec 1 2 3 4]] with | .noSession => true | _ => false) = true := by decide
+
 /-- **Combining keeps every message of every input in creation-time order.** Whenever `Combine` succeeds, the body of
 the result (everything before the sport / split_summary / session / activity messages it appends) is — up to the VALUES
 of accumulable fields, which are continued across the file boundaries — exactly the messages of the inputs: the first
@@ -316,6 +496,25 @@ theorem C20_combine_closed_form (earlier : List (List Message)) (mn : Nat) (f : 
   · simp
   · simp only [Bool.not_true, Bool.false_eq_true, ↓reduceIte]
     congr 2
+
+/-! ## the command line -/
+
+/-- **`--first N` / `--last N` reach the concealer as N metres exactly up to 42 949 672 m.** main.go computes
+`uint32(N)*100` (Generated/ToolCli.lean: width and factor read from the source, both call sites): for
+`N·100 < 2^32` this is `N·100`, the distance in the unit of record.distance; beyond it the product wraps —
+`--first 42949673` conceals 4 cm, `--first 4294967296` (2^32 m) nothing at all — silently. (Outside the property,
+which is about `Conceal(mesgs, first, last)`; stated so that the range is on record.) -/
+theorem C20_cli_threshold_exact :
+    (∀ n : Nat, n * 100 < 2 ^ 32 → cliThreshold n = n * 100) ∧ (∀ n : Nat, n ≤ 42949672 → cliThreshold n = n * 100) ∧
+    cliThreshold 42949673 = 4 ∧ cliThreshold (2 ^ 32) = 0 ∧ cliCallSites = 2 := by
+  have e : ∀ n : Nat, n * 100 < 2 ^ 32 → cliThreshold n = n * 100 := by
+    intro n h
+    have hb : cliBits = 32 := by decide
+    have hf : cliFactor = 100 := by decide
+    unfold cliThreshold; rw [hb, hf]
+    have : n < 2 ^ 32 := by omega
+    rw [Nat.mod_eq_of_lt this, Nat.mod_eq_of_lt h]
+  exact ⟨e, fun n h => e n (by omega), by decide, by decide, by decide⟩
 
 /-! ## aggregator (used by the combiner on sessions and split summaries) -/
 
